@@ -22,8 +22,8 @@ RULE = (
     "2-8 (last fragment shorter, zero padded), integer waveforms over {0,1,2,5,-1,3}, fractional baselines, "
     "per-record rms, optionally some fragments removed (documented 'incomplete set'); thresholds scalar / "
     "per-channel list, tuple or array (int and float) / min_height_over_noise (scalar or per channel), all > 0; "
-    "extensions 0..record length.  Sub-check exh enumerates every pulse of n<=6 (quick) / n<=8 (thorough) "
-    "samples over the alphabet {0,1,2}, every record length that gives 1 or 2 (thorough: up to 3) fragments, "
+    "extensions 0..record length.  Sub-check exh enumerates every pulse of n<=6 (quick) / n<=9 (thorough) "
+    "samples over the alphabet {0,1,2}, every record length <= min(n+1, 8) that gives 1 or 2 (thorough: up to 3) fragments, "
     "thresholds {1,2}, every subset of present fragments, and every (left, right) extension pair in "
     "0..record length.  A case is non-trivial when a hit touches a fragment boundary, a record has >= 2 hits, "
     "per-channel thresholds differ (hits, cut, exh); when >= 2 channels interleave multi-fragment pulses or a "
@@ -163,7 +163,7 @@ def snapshot(a):
 # ------------------------------------------------------------------------------------------------
 # thresholds
 # ------------------------------------------------------------------------------------------------
-AMP_VALUES = [1, 2, 3, 5, 1.5, 2.5, 4]
+AMP_FLOATS = [1.0, 2.0, 3.0, 5.0, 1.5, 2.5, 4.0]  # float lists give float64 arrays, int lists int64 arrays
 
 
 @st.composite
@@ -181,16 +181,16 @@ def st_thr(draw):
     if mode in ("per_channel", "both"):
         ints_only = draw(st.booleans())
         amp = dict(kind=draw(st.sampled_from(["list", "tuple", "array"])),
-                   v=per_ch([1, 2, 3, 5, 4] if ints_only else AMP_VALUES))
+                   v=per_ch([1, 2, 3, 5, 4] if ints_only else AMP_FLOATS))
     if mode == "noise":
         if draw(st.booleans()):
             hon = dict(kind="scalar", v=draw(st.sampled_from([1, 2, 3])))
         else:
-            hon = dict(kind=draw(st.sampled_from(["list", "tuple", "array"])), v=per_ch([0, 1, 2, 3, 1.5]))
+            hon = dict(kind=draw(st.sampled_from(["list", "tuple", "array"])), v=per_ch([0.0, 1.0, 2.0, 3.0, 1.5]))
         if draw(st.booleans()):
             amp = dict(kind="scalar", v=1)
     if mode == "both":
-        hon = dict(kind=draw(st.sampled_from(["list", "array"])), v=per_ch([0, 1, 2, 3, 1.5]))
+        hon = dict(kind=draw(st.sampled_from(["list", "array"])), v=per_ch([0.0, 1.0, 2.0, 3.0, 1.5]))
     return dict(amp=amp, hon=hon)
 
 
@@ -480,7 +480,7 @@ def run_cut(d):
 # exhaustive small scope: one pulse, alphabet {0,1,2}
 # ------------------------------------------------------------------------------------------------
 def enum_exh(tier, seed):
-    nmax = 8 if tier == "thorough" else 6
+    nmax = 9 if tier == "thorough" else 6
     maxfrag = 3 if tier == "thorough" else 2
     for n in range(1, nmax + 1):
         sprs = [s for s in range(1, min(n + 1, 8) + 1) if -(-n // s) <= maxfrag]
@@ -548,7 +548,6 @@ def st_baseline(draw):
     d["orphan"] = draw(st.sampled_from([None, None, None, 0, 1, 2]))
     d["sloppy"] = draw(st.booleans())
     d["fallback"] = draw(st.sampled_from([16000, 16000, 100]))
-    d["defaults"] = draw(st.booleans())
     return d
 
 
@@ -582,15 +581,10 @@ def run_baseline(d):
     rec = raw.copy()
     bs, flip = d["bs"], d["flip"]
     classes = set()
-    kw = dict(baseline_samples=bs, flip=flip)
-    if orphan_ch is not None:
-        kw.update(allow_sloppy_chunking=d["sloppy"], fallback_baseline=d["fallback"])
-    elif not d["defaults"]:
-        kw.update(allow_sloppy_chunking=d["sloppy"], fallback_baseline=d["fallback"])
-    if flip and d["defaults"]:
-        kw.pop("flip")
+    # every argument is passed explicitly: an omitted argument is a separate numba signature (compile time)
+    kw = dict(baseline_samples=bs, flip=flip, allow_sloppy_chunking=d["sloppy"], fallback_baseline=d["fallback"])
     try:
-        want = ref.baseline(raw, bs, flip, kw.get("allow_sloppy_chunking", False), kw.get("fallback_baseline", 16000))
+        want = ref.baseline(raw, bs, flip, d["sloppy"], d["fallback"])
     except ref.MissingFirstFragment:
         want = None
     try:
@@ -752,11 +746,11 @@ def run_zero(d):
 # no required_classes: the runner reports a missing class as a harness error *before* any violation, and a
 # defect that breaks a whole class (e.g. links across channels) would then hide behind exit 2.
 SUBCHECKS = [
-    SubCheck("hits", run_hits, strategy=st_hits, quick=6000, thorough=200000),
+    SubCheck("hits", run_hits, strategy=st_hits, quick=6000, thorough=250000),
     SubCheck("links", run_links, strategy=st_pulses, quick=4000, thorough=100000),
-    SubCheck("cut", run_cut, strategy=st_cut, quick=6000, thorough=200000),
+    SubCheck("cut", run_cut, strategy=st_cut, quick=6000, thorough=250000),
     SubCheck("exh", run_exh, enumerate=enum_exh, exhaustive_in=("quick", "thorough")),
-    SubCheck("baseline", run_baseline, strategy=st_baseline, quick=4000, thorough=100000),
+    SubCheck("baseline", run_baseline, strategy=st_baseline, quick=4000, thorough=120000),
     SubCheck("integrate", run_integrate, strategy=st_recs, quick=3000, thorough=60000),
-    SubCheck("zero_oob", run_zero, strategy=st_recs, quick=3000, thorough=60000),
+    SubCheck("zero_oob", run_zero, strategy=st_recs, quick=3000, thorough=40000),
 ]
